@@ -122,6 +122,7 @@ type FactEngine struct {
 	fn       *FuncInfo
 	mentions map[string][]string // atom -> access paths it depends on
 	okvars   map[types.Object]string
+	rangeVals map[types.Object]ast.Expr
 	aliases  map[types.Object]ast.Expr
 	boolDefs map[types.Object]ast.Expr
 	depth    int
@@ -129,7 +130,7 @@ type FactEngine struct {
 }
 
 func NewFactEngine(p *Prog, fn *FuncInfo) *FactEngine {
-	e := &FactEngine{p: p, fn: fn, mentions: map[string][]string{}, okvars: map[types.Object]string{}, aliases: map[types.Object]ast.Expr{}, boolDefs: map[types.Object]ast.Expr{}}
+	e := &FactEngine{p: p, fn: fn, mentions: map[string][]string{}, okvars: map[types.Object]string{}, rangeVals: map[types.Object]ast.Expr{}, aliases: map[types.Object]ast.Expr{}, boolDefs: map[types.Object]ast.Expr{}}
 	e.prescan()
 	return e
 }
@@ -197,6 +198,31 @@ func (e *FactEngine) prescan() {
 					}
 				}
 			}
+			// `for i, v := range X`: v reads as X[i] (a copy; writes to X[i] inside the body are not seen by v —
+			// accepted imprecision, the facts are re-derived at the loop head)
+			if kid, ok := s.Key.(*ast.Ident); ok && kid.Name != "_" && s.Tok == token.DEFINE {
+				if vid, ok := s.Value.(*ast.Ident); ok && vid.Name != "_" && isPurePath(s.X) {
+					if vo := info.Defs[vid]; vo != nil {
+						e.rangeVals[vo] = &ast.IndexExpr{X: s.X, Index: kid}
+					}
+				}
+			}
+		}
+		return true
+	})
+	// range values that are assigned in the body are plain variables
+	ast.Inspect(e.fn.Decl.Body, func(n ast.Node) bool {
+		if as, ok := n.(*ast.AssignStmt); ok {
+			for _, l := range as.Lhs {
+				if id, ok := ast.Unparen(l).(*ast.Ident); ok {
+					delete(e.rangeVals, info.ObjectOf(id))
+				}
+			}
+		}
+		if ue, ok := n.(*ast.UnaryExpr); ok && ue.Op == token.AND {
+			if id, ok := ast.Unparen(ue.X).(*ast.Ident); ok {
+				delete(e.rangeVals, info.ObjectOf(id))
+			}
 		}
 		return true
 	})
@@ -207,8 +233,18 @@ func (e *FactEngine) prescan() {
 		s := c.as
 		if len(s.Lhs) == 2 && len(s.Rhs) == 1 && c.idx == 1 {
 			if b, ok := c.obj.Type().Underlying().(*types.Basic); ok && b.Kind() == types.Bool {
-				e.okvars[c.obj] = "" // filled lazily (needs canon)
+				e.okvars[c.obj] = "ok" // filled lazily (needs canon)
 				e.aliases[c.obj] = s.Rhs[0]
+			}
+			continue
+		}
+		// `matched, err := pred(args)`: the bool result of a two-value call
+		if len(s.Lhs) == 2 && len(s.Rhs) == 1 && c.idx == 0 {
+			if b, ok := c.obj.Type().Underlying().(*types.Basic); ok && b.Kind() == types.Bool {
+				if _, isCall := ast.Unparen(s.Rhs[0]).(*ast.CallExpr); isCall {
+					e.okvars[c.obj] = "res0"
+					e.aliases[c.obj] = s.Rhs[0]
+				}
 			}
 			continue
 		}
@@ -288,6 +324,9 @@ func (e *FactEngine) canon(x ast.Expr, sc *scope, paths *[]string) string {
 				*paths = append(*paths, s)
 			}
 			return s
+		}
+		if rv, ok := e.rangeVals[o]; ok && sc.local {
+			return e.canon(rv, e.fnScope(), paths)
 		}
 		if _, isOK := e.okvars[o]; !isOK {
 			if rhs, ok := e.aliases[o]; ok && sc.local {
@@ -485,18 +524,18 @@ func isIntegerType(t types.Type) bool {
 	return ok && b.Info()&types.IsInteger != 0
 }
 
-// linAtoms returns canonical (lt0, eq0) atoms for the linear form L (sign normalised)
-// together with flipped=true when L was negated.
-func linKey(l linear) (key string, flipped bool) {
+// linKey renders the sign-normalised term part T of L = ±(T + k) and returns k
+// (after normalisation) and whether L was negated.
+func linKey(l linear) (terms string, k int64, flipped bool) {
 	var names []string
-	for k, v := range l.terms {
+	for n, v := range l.terms {
 		if v != 0 {
-			names = append(names, k)
+			names = append(names, n)
 		}
 	}
 	sort.Strings(names)
 	if len(names) == 0 {
-		return fmt.Sprintf("%d", l.k), false
+		return "", l.k, false
 	}
 	flip := l.terms[names[0]] < 0
 	var sb strings.Builder
@@ -507,15 +546,17 @@ func linKey(l linear) (key string, flipped bool) {
 		}
 		fmt.Fprintf(&sb, "%+d*%s", v, n)
 	}
-	k := l.k
+	k = l.k
 	if flip {
 		k = -k
 	}
-	fmt.Fprintf(&sb, "%+d", k)
-	return sb.String(), flip
+	return sb.String(), k, flip
 }
 
-// cmpFormula builds the formula for  L op 0  over integers.
+// cmpFormula builds the formula for  L op 0  over the integers, using only
+// atoms of the form A(T,k) := "T + k < 0" (so that <, <=, >, >=, ==, != and
+// off-by-one rewritings of the same comparison share atoms). The universe
+// adds the order theory A(T,k2) ⇒ A(T,k1) for k1 < k2.
 func (e *FactEngine) cmpFormula(l linear, op token.Token, paths []string) *Formula {
 	nonzero := 0
 	for _, v := range l.terms {
@@ -544,12 +585,11 @@ func (e *FactEngine) cmpFormula(l linear, op token.Token, paths []string) *Formu
 		}
 		return fF
 	}
-	// L <= 0  <=>  L-1 < 0 ;  L > 0 <=> !(L-1 < 0)... keep two atoms lt0(M), eq0(M)
-	key, flip := linKey(l)
-	lt := e.atomOf("lt0("+key+")", append([]string(nil), paths...))
-	eq := e.atomOf("eq0("+key+")", append([]string(nil), paths...))
-	gt := mkAnd(mkNot(lt), mkNot(eq))
-	if flip { // L = -M
+	t, k, flip := linKey(l)
+	A := func(kk int64) *Formula {
+		return e.atomOf(fmt.Sprintf("lt0(%s|%+d)", t, kk), append([]string(nil), paths...))
+	}
+	if flip { // L = -(T+k): compare M = T+k with the mirrored operator
 		switch op {
 		case token.LSS:
 			op = token.GTR
@@ -562,20 +602,36 @@ func (e *FactEngine) cmpFormula(l linear, op token.Token, paths []string) *Formu
 		}
 	}
 	switch op {
-	case token.LSS:
-		return lt
-	case token.LEQ:
-		return mkOr(lt, eq)
-	case token.GTR:
-		return gt
-	case token.GEQ:
-		return mkNot(lt)
+	case token.LSS: // M < 0
+		return A(k)
+	case token.LEQ: // M <= 0  ⇔ M-1 < 0
+		return A(k - 1)
+	case token.GEQ: // M >= 0
+		return mkNot(A(k))
+	case token.GTR: // M > 0 ⇔ !(M <= 0)
+		return mkNot(A(k - 1))
 	case token.EQL:
-		return eq
+		return mkAnd(mkNot(A(k)), A(k-1))
 	case token.NEQ:
-		return mkNot(eq)
+		return mkOr(A(k), mkNot(A(k-1)))
 	}
 	return fT
+}
+
+// splitLt parses "lt0(T|k)".
+func splitLt(a string) (t string, k int64, ok bool) {
+	if !strings.HasPrefix(a, "lt0(") || !strings.HasSuffix(a, ")") {
+		return
+	}
+	body := a[4 : len(a)-1]
+	i := strings.LastIndexByte(body, '|')
+	if i < 0 {
+		return
+	}
+	if _, err := fmt.Sscanf(body[i+1:], "%d", &k); err != nil {
+		return
+	}
+	return body[:i], k, true
 }
 
 // boolForm converts a boolean expression to a formula.
@@ -651,7 +707,11 @@ func (e *FactEngine) boolForm(x ast.Expr, sc *scope) *Formula {
 		if o != nil && sc.local {
 			if _, ok := e.okvars[o]; ok {
 				var paths []string
-				s := "ok(" + e.canon(e.aliases[o], e.fnScope(), &paths) + fmt.Sprintf(")@%d", o.Pos())
+				pos := o.Pos()
+				if e.okvars[o] == "res0" {
+					pos = e.aliases[o].Pos() // call results are named after the call site
+				}
+				s := e.okvars[o] + "(" + e.canon(e.aliases[o], e.fnScope(), &paths) + fmt.Sprintf(")@%d", pos)
 				// the flag is a single-definition local: nothing can change it
 				return e.atomOf(s, nil)
 			}
@@ -839,7 +899,7 @@ func (v vset) subset(o vset) bool {
 	return true
 }
 
-func (e *FactEngine) newUniverse(req *Formula, body *ast.BlockStmt) (*universe, error) {
+func (e *FactEngine) newUniverse(req *Formula, body *ast.BlockStmt, target ...ast.Node) (*universe, error) {
 	m := map[string]bool{}
 	req.atoms(m)
 	if len(m) > 16 {
@@ -850,6 +910,20 @@ func (e *FactEngine) newUniverse(req *Formula, body *ast.BlockStmt) (*universe, 
 	if body != nil {
 		var conds []*Formula
 		sc := e.fnScope()
+		// conditions that enclose the target are always relevant
+		if len(target) == 1 && target[0] != nil {
+			for _, nd := range pathTo(body, target[0]) {
+				if is, ok := nd.(*ast.IfStmt); ok {
+					am := map[string]bool{}
+					e.boolForm(is.Cond, sc).atoms(am)
+					if len(m)+len(am) <= 12 {
+						for a := range am {
+							m[a] = true
+						}
+					}
+				}
+			}
+		}
 		ast.Inspect(body, func(n ast.Node) bool {
 			switch t := n.(type) {
 			case *ast.IfStmt:
@@ -878,11 +952,20 @@ func (e *FactEngine) newUniverse(req *Formula, body *ast.BlockStmt) (*universe, 
 				reqPaths[pth] = true
 			}
 		}
+		reqLin := map[string]bool{}
+		for a := range m {
+			if t, _, ok := splitLt(a); ok {
+				reqLin[t] = true
+			}
+		}
 		for _, cf := range conds {
 			am := map[string]bool{}
 			cf.atoms(am)
 			for a := range am {
 				if pth, _, ok := splitEqConst(a); ok && reqPaths[pth] && len(m) < 13 {
+					m[a] = true
+				}
+				if t, _, ok := splitLt(a); ok && reqLin[t] && len(m) < 13 {
 					m[a] = true
 				}
 			}
@@ -916,19 +999,27 @@ func (e *FactEngine) newUniverse(req *Formula, body *ast.BlockStmt) (*universe, 
 	}
 	n := 1 << uint(len(as))
 	u.valid = newVset(len(as))
-	// background theory: eq(P,#c1) & eq(P,#c2) exclusive; lt0(M) & eq0(M) exclusive
+	// background theory: eq(P,#c1) & eq(P,#c2) exclusive; A(T,k2) ⇒ A(T,k1) for k1 < k2
 	type pair struct{ i, j int }
-	var excl []pair
+	var excl []pair // both true is impossible
+	var impl []pair // i true ⇒ j true
 	for i, a := range as {
-		for j := i + 1; j < len(as); j++ {
+		for j := 0; j < len(as); j++ {
+			if i == j {
+				continue
+			}
 			b := as[j]
-			if pa, ca, ok := splitEqConst(a); ok {
-				if pb, cb, ok := splitEqConst(b); ok && pa == pb && ca != cb {
-					excl = append(excl, pair{i, j})
+			if j > i {
+				if pa, ca, ok := splitEqConst(a); ok {
+					if pb, cb, ok := splitEqConst(b); ok && pa == pb && ca != cb {
+						excl = append(excl, pair{i, j})
+					}
 				}
 			}
-			if strings.HasPrefix(a, "eq0(") && b == "lt0("+a[4:] || strings.HasPrefix(a, "lt0(") && b == "eq0("+a[4:] {
-				excl = append(excl, pair{i, j})
+			if ta, ka, ok := splitLt(a); ok {
+				if tb, kb, ok := splitLt(b); ok && ta == tb && kb < ka {
+					impl = append(impl, pair{i, j})
+				}
 			}
 		}
 	}
@@ -936,6 +1027,12 @@ func (e *FactEngine) newUniverse(req *Formula, body *ast.BlockStmt) (*universe, 
 		ok := true
 		for _, p := range excl {
 			if v&(1<<uint(p.i)) != 0 && v&(1<<uint(p.j)) != 0 {
+				ok = false
+				break
+			}
+		}
+		for _, p := range impl {
+			if v&(1<<uint(p.i)) != 0 && v&(1<<uint(p.j)) == 0 {
 				ok = false
 				break
 			}
@@ -1494,6 +1591,30 @@ func (w *walker) stmt(st ast.Stmt, s vset) vset {
 			}
 			s = w.assign(l, rhs, s)
 		}
+		// `b, err = pred(args)`: tie the variable to the call-result atom res0(call)@site
+		if len(t.Lhs) == 2 && len(t.Rhs) == 1 {
+			if call, ok := ast.Unparen(t.Rhs[0]).(*ast.CallExpr); ok {
+				if vo := identObj(w.sc.info, t.Lhs[0]); vo != nil {
+					if _, isOK := w.e.okvars[vo]; !isOK {
+						if b, isB := vo.Type().Underlying().(*types.Basic); isB && b.Kind() == types.Bool {
+							r := w.e.CallResultAtom(call)
+							if ri, ok := w.u.idx[r]; ok {
+								s = w.u.forget(s, ri)
+								if vi, ok := w.u.idx[objID(vo)]; ok {
+									ns := newVset(len(w.u.atoms))
+									for v := 0; v < 1<<uint(len(w.u.atoms)); v++ {
+										if s.has(v) && (v&(1<<uint(ri)) != 0) == (v&(1<<uint(vi)) != 0) {
+											ns.set(v)
+										}
+									}
+									s = ns
+								}
+							}
+						}
+					}
+				}
+			}
+		}
 		return s
 	case *ast.IncDecStmt:
 		if w.contains(t) {
@@ -1761,7 +1882,7 @@ func (e *FactEngine) fnScope() *scope { return &scope{info: e.fn.Info(), local: 
 // description (when not ok) and an error for undecidable shapes.
 func (e *FactEngine) FactsAt(target ast.Node, req *Formula) (bool, string, error) {
 	body := innermostBody(e.fn, target)
-	u, err := e.newUniverse(req, body)
+	u, err := e.newUniverse(req, body, target)
 	if err != nil {
 		return false, "", err
 	}
@@ -1859,3 +1980,8 @@ func (e *FactEngine) Expr(src string, pos token.Pos) (*Formula, error) { return 
 
 // Cond returns the formula of an expression of the analysed function.
 func (e *FactEngine) Cond(x ast.Expr) *Formula { return e.boolForm(x, e.fnScope()) }
+
+// CallResultAtom names the boolean first result of a two-value call at its call site.
+func (e *FactEngine) CallResultAtom(call *ast.CallExpr) string {
+	return "res0(" + e.canon(call, e.fnScope(), nil) + fmt.Sprintf(")@%d", call.Pos())
+}
